@@ -54,6 +54,7 @@ class FuncSpec(object):
     self.guar = ([self.conc] if self.conc else []) if g is None else list(g)   # CONCURRENCY entries this unit must establish
     self.no_exit = d.get('no_exit', False)
     self.buffers = dict(d.get('buffers', {}))     # stream parameter -> byte expression (its content at entry)
+    self.comps = dict(d.get('comps', {}))            # source text of a list comprehension whose element has effects -> loop spec (it is run as the loop it abbreviates)
     self.dispatch = dict(d.get('dispatch', {}))      # call text -> candidate bound methods of a call through a stored callable
     self.inline_calls = list(d.get('inline_calls', ()))   # callees inlined from source in this unit although they have a contract
     self.literals = dict((k, parse_type(v)) for k, v in d.get('literals', {}).items())  # source text of a literal -> declared type        # the function never returns normally (worker loop)               # name of the CONCURRENCY entry governing the receiver's shared state
